@@ -1,9 +1,12 @@
 //! `vstd`: the part of `std` that `std_runtime/{timer,executor}.rs` use, re-implemented on loom primitives
 //! with a *virtual* clock, so that loom can enumerate the interleavings of the unmodified function bodies.
 //!
-//! Everything that can block or that reads the time goes through ONE global loom `Mutex` (+ `Condvar`s):
-//! channel operations, `park`/`unpark`, `Instant::now()`. Every such operation is therefore a loom scheduling
-//! point and blocked threads are really blocked (loom reports "deadlock" if nobody can run any more).
+//! Everything that can block or that reads the time goes through ONE global loom `Mutex`: channel operations,
+//! `park`/`unpark`, `Instant::now()`. Every such operation is therefore a loom scheduling point and blocked
+//! threads are really blocked (loom reports "deadlock" if nobody can run any more). A blocked thread records
+//! what it waits for (`Wait`) and sleeps on the condition variable of its thread slot; whoever changes the state
+//! wakes exactly the threads whose wait is affected (a single shared condition variable with `notify_all` is
+//! equivalent but multiplies the number of interleavings by waking everybody for every event).
 //!
 //! Time: `now` is a `u64` nanosecond counter that only the *clock thread* changes:
 //!  * demand driven: whenever some thread sits in a timed wait whose deadline is in the future the clock may
@@ -26,23 +29,51 @@ pub use std::{cmp, collections, future, mem, pin, task};
 use loom::sync::{Condvar, Mutex, MutexGuard};
 use loom::thread::ThreadId;
 
+const SLOTS: usize = loom::MAX_THREADS;
+
 loom::lazy_static! {
     static ref G: Global = Global::new();
 }
 
 struct Global {
     m: Mutex<State>,
-    /// everything except the clock thread waits here
-    cv: Condvar,
-    /// only the clock thread waits here
-    clock_cv: Condvar,
+    /// one condition variable per thread slot
+    cvs: [Condvar; SLOTS],
+}
+
+/// What a blocked thread is waiting for.
+#[derive(Clone, Copy, PartialEq, Eq, Debug)]
+enum Wait {
+    None,
+    /// receiver of channel `.0` waits for a message or disconnection, optionally until the deadline `.1`
+    Recv(usize, Option<u64>),
+    /// sender of bounded channel `.0` waits for room or for the receiver to go away
+    SendFull(usize),
+    /// `probe::sleep_until`
+    Time(u64),
+    /// `park`
+    Token,
+    /// `Env::finish` waits for the live thread count to reach zero
+    Live,
+    /// the clock thread waits for something to do
+    Clock,
+}
+
+impl Wait {
+    fn deadline(&self) -> Option<u64> {
+        match self {
+            Wait::Recv(_, d) => *d,
+            Wait::Time(d) => Some(*d),
+            _ => None,
+        }
+    }
 }
 
 struct State {
     now: u64,
-    /// (ticket, deadline) of threads sitting in a timed wait
-    timed: Vec<(u64, u64)>,
-    next_ticket: u64,
+    /// thread slot -> loom thread
+    slots: Vec<ThreadId>,
+    waiting: [Wait; SLOTS],
     /// remaining spontaneous ticks (ns), consumed front to back
     free_ticks: Vec<u64>,
     /// threads spawned through `vstd::thread::Builder` that have not terminated yet
@@ -50,8 +81,10 @@ struct State {
     /// park tokens
     tokens: Vec<(ThreadId, bool)>,
     shutdown: bool,
-    /// set by `Env::finish`: from then on `park` returns immediately (std allows spurious returns), so that a
-    /// parked `Executor` thread notices that its channel is disconnected
+    /// set by `Env::finish`. `Executor`'s thread parks when its queue is empty and nobody unparks it when the
+    /// channel disconnects (in real life that thread is leaked). So that it can terminate inside the model,
+    /// every parked thread is unparked once when `finish` starts and once more whenever the last sender of some
+    /// channel goes away while finishing (std allows spurious returns from `park`). No spinning is involved.
     finishing: bool,
     /// per channel (creation order): number of messages dequeued by the receiver so far
     dequeued: Vec<usize>,
@@ -65,8 +98,8 @@ impl Global {
         Global {
             m: Mutex::new(State {
                 now: 0,
-                timed: Vec::new(),
-                next_ticket: 0,
+                slots: Vec::new(),
+                waiting: [Wait::None; SLOTS],
                 free_ticks: Vec::new(),
                 live: 0,
                 tokens: Vec::new(),
@@ -76,8 +109,7 @@ impl Global {
                 demand_advances: 0,
                 ticks_fired: 0,
             }),
-            cv: Condvar::new(),
-            clock_cv: Condvar::new(),
+            cvs: std::array::from_fn(|_| Condvar::new()),
         }
     }
 }
@@ -86,24 +118,69 @@ fn lock() -> MutexGuard<'static, State> {
     G.m.lock().unwrap()
 }
 
-/// Block (releasing the global lock) until some state change is signalled.
-fn wait(st: MutexGuard<'static, State>) -> MutexGuard<'static, State> {
-    G.cv.wait(st).unwrap()
+impl State {
+    fn slot_of(&mut self, id: ThreadId) -> usize {
+        if let Some(i) = self.slots.iter().position(|t| *t == id) {
+            return i;
+        }
+        self.slots.push(id);
+        assert!(self.slots.len() <= SLOTS, "vstd: more than {SLOTS} threads");
+        self.slots.len() - 1
+    }
+
+    /// Wake every blocked thread whose wait satisfies `pred`. The wait is cleared here so that nobody is
+    /// notified twice for one sleep (every notification is a loom scheduling point).
+    fn wake_where(&mut self, pred: impl Fn(&Wait) -> bool) {
+        for s in 0..SLOTS {
+            if self.waiting[s] != Wait::None && pred(&self.waiting[s]) {
+                self.waiting[s] = Wait::None;
+                G.cvs[s].notify_one();
+            }
+        }
+    }
+
+    /// Is there a timed wait that only the clock can end?
+    fn time_demand(&self) -> Option<u64> {
+        let now = self.now;
+        self.waiting.iter().filter_map(|w| w.deadline()).filter(|d| *d > now).min()
+    }
+
+    /// make every park token available (see `finishing`)
+    fn unpark_all(&mut self) {
+        let ids: Vec<ThreadId> = self.slots.clone();
+        for id in ids {
+            match self.tokens.iter_mut().find(|t| t.0 == id) {
+                Some(t) => t.1 = true,
+                None => self.tokens.push((id, true)),
+            }
+        }
+        self.wake_where(|w| *w == Wait::Token);
+    }
+
+    fn wake_clock_if_demand(&mut self) {
+        if self.time_demand().is_some() {
+            self.wake_where(|w| *w == Wait::Clock);
+        }
+    }
 }
 
-/// Register a timed wait (so that the clock thread knows that advancing the time to `deadline` makes progress).
-fn register_timed(st: &mut State, deadline: u64) -> u64 {
-    let ticket = st.next_ticket;
-    st.next_ticket += 1;
-    st.timed.push((ticket, deadline));
-    G.clock_cv.notify_all();
-    ticket
-}
-
-/// The clock is told as well: the earliest pending deadline may have changed.
-fn deregister_timed(st: &mut State, ticket: u64) {
-    st.timed.retain(|t| t.0 != ticket);
-    G.clock_cv.notify_all();
+/// Block the calling thread (releasing the global lock) until somebody wakes it for `w`. Callers re-check
+/// their condition in a loop.
+fn block(mut st: MutexGuard<'static, State>, w: Wait) -> MutexGuard<'static, State> {
+    let slot = st.slot_of(loom::thread::current().id());
+    st.waiting[slot] = w;
+    if w.deadline().is_some() {
+        // the clock now has something to do
+        st.wake_where(|w| *w == Wait::Clock);
+    }
+    let mut st = G.cvs[slot].wait(st).unwrap();
+    let timed = w.deadline().is_some();
+    st.waiting[slot] = Wait::None;
+    if timed {
+        // this timed wait is over; others may still depend on the clock
+        st.wake_clock_if_demand();
+    }
+    st
 }
 
 // ------------------------------------------------------------------------------------------------------------
@@ -134,17 +211,17 @@ impl Env {
 
     /// Wait until every thread spawned by the code under test has terminated (they terminate when their
     /// channels disconnect, so the caller must have dropped drivers, handles, sleeps and tasks), then stop the
-    /// clock. From now on `park` returns immediately, because `Executor`'s thread parks when its queue is empty and is
-    /// not woken by the disconnection of its channel.
+    /// clock. Parked threads are unparked (see `State::finishing`), because `Executor`'s thread parks when its
+    /// queue is empty and is not woken by the disconnection of its channel.
     pub fn finish(self) -> EnvStats {
         let mut st = lock();
         st.finishing = true;
-        G.cv.notify_all();
+        st.unpark_all();
         while st.live > 0 {
-            st = wait(st);
+            st = block(st, Wait::Live);
         }
         st.shutdown = true;
-        G.clock_cv.notify_all();
+        st.wake_where(|w| *w == Wait::Clock);
         let stats = EnvStats { final_now: st.now, demand_advances: st.demand_advances, ticks_fired: st.ticks_fired };
         drop(st);
         self.clock.join().unwrap();
@@ -163,48 +240,41 @@ fn clock_main() {
             let t = st.free_ticks.remove(0);
             st.now += t;
             st.ticks_fired += 1;
-            G.cv.notify_all();
+            let now = st.now;
+            st.wake_where(|w| w.deadline().is_some_and(|d| d <= now));
             // release the lock so that the next action is a separate scheduling decision
             drop(st);
             st = lock();
             continue;
         }
-        let now = st.now;
-        if let Some(d) = st.timed.iter().map(|t| t.1).filter(|d| *d > now).min() {
+        if let Some(d) = st.time_demand() {
             st.now = d;
             st.demand_advances += 1;
-            G.cv.notify_all();
+            st.wake_where(|w| w.deadline().is_some_and(|dl| dl <= d));
         }
-        st = G.clock_cv.wait(st).unwrap();
+        st = block(st, Wait::Clock);
     }
 }
 
 /// Harness-side probes (not used by the code under test).
 pub mod probe {
+    use super::{block, lock, Wait};
+
     /// Current virtual time in ns.
     pub fn now_ns() -> u64 {
-        super::lock().now
+        lock().now
     }
-    /// Number of messages the receiver of channel `idx` (creation order within this execution) has dequeued.
-    pub fn dequeued(idx: usize) -> usize {
-        super::lock().dequeued.get(idx).copied().unwrap_or(0)
-    }
-    /// (messages dequeued on channel `idx`, now) under one lock
+    /// (messages dequeued on channel `idx` (creation order within this execution), now) under one lock
     pub fn snapshot(idx: usize) -> (usize, u64) {
-        let st = super::lock();
+        let st = lock();
         (st.dequeued.get(idx).copied().unwrap_or(0), st.now)
     }
     /// Block until the virtual time is at least `t` ns (a timed wait: the clock may jump to `t`).
     pub fn sleep_until(t: u64) {
-        let mut st = super::lock();
-        if st.now >= t {
-            return;
-        }
-        let ticket = super::register_timed(&mut st, t);
+        let mut st = lock();
         while st.now < t {
-            st = super::wait(st);
+            st = block(st, Wait::Time(t));
         }
-        super::deregister_timed(&mut st, ticket);
     }
 }
 
@@ -264,7 +334,11 @@ pub mod thread {
                 Some(t) => t.1 = true,
                 None => st.tokens.push((self.id, true)),
             }
-            G.cv.notify_all();
+            let slot = st.slot_of(self.id);
+            if st.waiting[slot] == Wait::Token {
+                st.waiting[slot] = Wait::None;
+                G.cvs[slot].notify_one();
+            }
         }
     }
 
@@ -276,10 +350,9 @@ pub mod thread {
     pub fn park() {
         let me = loom::thread::current().id();
         let mut st = lock();
+        // make sure this thread has a slot (tokens of all slots are set by `unpark_all`)
+        st.slot_of(me);
         loop {
-            if st.finishing {
-                return;
-            }
             if let Some(t) = st.tokens.iter_mut().find(|t| t.0 == me) {
                 if t.1 {
                     t.1 = false;
@@ -288,7 +361,7 @@ pub mod thread {
             } else {
                 st.tokens.push((me, false));
             }
-            st = wait(st);
+            st = block(st, Wait::Token);
         }
     }
 
@@ -328,11 +401,15 @@ pub mod thread {
                 let r = f();
                 let mut st = lock();
                 st.live -= 1;
-                G.cv.notify_all();
+                if st.live == 0 {
+                    st.wake_where(|w| *w == Wait::Live);
+                }
                 drop(st);
                 r
             })?;
             let thread = Thread { id: inner.thread().id() };
+            // give the new thread its slot now, so that `unpark_all` reaches it even before its first wait
+            lock().slot_of(thread.id);
             Ok(JoinHandle { inner, thread })
         }
     }
@@ -356,7 +433,7 @@ pub mod sync {
     /// the global lock; the per-channel std mutex below is only ever locked while the global lock is held and
     /// is therefore never contended (it exists to keep this module free of `unsafe`).
     pub mod mpsc {
-        use super::super::{deregister_timed, dur_ns, lock, register_timed, wait, G};
+        use super::super::{block, dur_ns, lock, State, Wait};
         use std::collections::VecDeque;
         use std::sync::Arc;
         use std::time::Duration;
@@ -398,6 +475,14 @@ pub mod sync {
             (SyncSender { c: c.clone() }, Receiver { c })
         }
 
+        fn wake_receiver(st: &mut State, idx: usize) {
+            st.wake_where(|w| matches!(w, Wait::Recv(i, _) if *i == idx));
+        }
+
+        fn wake_full_senders(st: &mut State, idx: usize) {
+            st.wake_where(|w| *w == Wait::SendFull(idx));
+        }
+
         fn send_impl<T>(c: &Chan<T>, value: T) -> Result<(), SendError<T>> {
             let mut st = lock();
             loop {
@@ -408,12 +493,13 @@ pub mod sync {
                     }
                     if c.cap.map_or(true, |cap| inner.queue.len() < cap) {
                         inner.queue.push_back(value);
-                        G.cv.notify_all();
+                        drop(inner);
+                        wake_receiver(&mut st, c.idx);
                         return Ok(());
                     }
                 }
                 // bounded channel is full: block until the receiver takes a message or goes away
-                st = wait(st);
+                st = block(st, Wait::SendFull(c.idx));
             }
         }
 
@@ -423,11 +509,16 @@ pub mod sync {
         }
 
         fn drop_sender<T>(c: &Chan<T>) {
-            let _st = lock();
+            let mut st = lock();
             let mut inner = c.inner.lock().unwrap();
             inner.senders -= 1;
-            if inner.senders == 0 {
-                G.cv.notify_all();
+            let last = inner.senders == 0;
+            drop(inner);
+            if last {
+                wake_receiver(&mut st, c.idx);
+                if st.finishing {
+                    st.unpark_all();
+                }
             }
         }
 
@@ -502,13 +593,13 @@ pub mod sync {
 
         impl<T> Receiver<T> {
             /// must be called with the global lock held
-            fn step(&self, st: &mut super::super::State) -> Step<T> {
+            fn step(&self, st: &mut State) -> Step<T> {
                 let mut inner = self.c.inner.lock().unwrap();
                 if let Some(v) = inner.queue.pop_front() {
+                    drop(inner);
                     st.dequeued[self.c.idx] += 1;
                     if self.c.cap.is_some() {
-                        // a sender may be blocked on the full buffer
-                        G.cv.notify_all();
+                        wake_full_senders(st, self.c.idx);
                     }
                     Step::Got(v)
                 } else if inner.senders == 0 {
@@ -533,7 +624,7 @@ pub mod sync {
                     match self.step(&mut st) {
                         Step::Got(v) => return Ok(v),
                         Step::Disconnected => return Err(RecvError),
-                        Step::Empty => st = wait(st),
+                        Step::Empty => st = block(st, Wait::Recv(self.c.idx, None)),
                     }
                 }
             }
@@ -543,26 +634,18 @@ pub mod sync {
             pub fn recv_timeout(&self, timeout: Duration) -> Result<T, RecvTimeoutError> {
                 let mut st = lock();
                 let deadline = st.now + dur_ns(timeout).max(1);
-                let mut ticket = None;
-                let r = loop {
+                loop {
                     match self.step(&mut st) {
-                        Step::Got(v) => break Ok(v),
-                        Step::Disconnected => break Err(RecvTimeoutError::Disconnected),
+                        Step::Got(v) => return Ok(v),
+                        Step::Disconnected => return Err(RecvTimeoutError::Disconnected),
                         Step::Empty => {
                             if st.now >= deadline {
-                                break Err(RecvTimeoutError::Timeout);
+                                return Err(RecvTimeoutError::Timeout);
                             }
-                            if ticket.is_none() {
-                                ticket = Some(register_timed(&mut st, deadline));
-                            }
-                            st = wait(st);
+                            st = block(st, Wait::Recv(self.c.idx, Some(deadline)));
                         }
                     }
-                };
-                if let Some(t) = ticket {
-                    deregister_timed(&mut st, t);
                 }
-                r
             }
         }
 
@@ -571,11 +654,13 @@ pub mod sync {
                 // queued messages are dropped with the receiver (as in std), but outside the global lock:
                 // their destructors may call back into vstd
                 let rest: VecDeque<T> = {
-                    let _st = lock();
+                    let mut st = lock();
                     let mut inner = self.c.inner.lock().unwrap();
                     inner.receiver_alive = false;
-                    G.cv.notify_all();
-                    std::mem::take(&mut inner.queue)
+                    let rest = std::mem::take(&mut inner.queue);
+                    drop(inner);
+                    wake_full_senders(&mut st, self.c.idx);
+                    rest
                 };
                 drop(rest);
             }
